@@ -193,38 +193,37 @@ Proof.
   - specialize (Hs eq_refl). lia.
 Qed.
 
-Lemma ip_mod_inj nb a j j' d : (d < nb)%nat -> (j <= d)%nat -> (j' <= d)%nat ->
-  ((a + j) mod nb = (a + j') mod nb)%nat -> j = j'.
+(** sum_k [i = k] f k = f i, with the boolean test of the model *)
+Lemma ip_sumn_eqb n i f : (i < n)%nat -> sumn n (fun k => (if (i =? k)%nat then 1 else 0) * f k) = f i.
+Proof. exact (ip_sumn_delta n i f). Qed.
+
+(** the accumulating collocation row (np.add.at) dotted with ANY vector is the sum eval forms through the
+    same column map - for EVERY column map into [0, n): no injectivity is needed, repeated columns add up *)
+Theorem ip_row_acc_dot n (idx : nat -> nat) (b c : nat -> F) p :
+  (forall j, (j <= p)%nat -> (idx j < n)%nat) ->
+  sumn n (fun k => ip_row_acc F K idx b p k * c k) = sumn (S p) (fun j => b j * c (idx j)).
 Proof.
-  intros Hd Hj Hj' E.
-  pose proof (Nat.div_mod (a + j) nb ltac:(lia)) as E1. pose proof (Nat.div_mod (a + j') nb ltac:(lia)) as E2.
-  rewrite E in E1. set (q1 := ((a + j) / nb)%nat) in *. set (q2 := ((a + j') / nb)%nat) in *.
-  set (r := ((a + j') mod nb)%nat) in *.
-  destruct (Nat.lt_trichotomy q1 q2) as [H|[H|H]]; [exfalso; nia|nia|exfalso; nia].
+  intros Hlt. unfold ip_row_acc, ip_sum.
+  rewrite (ip_sumn_ext n _ (fun k => sumn (S p) (fun j => (if (idx j =? k)%nat then b j else 0) * c k))).
+  2:{ intros k _. rewrite (ip_sumn_ext (S p) (fun j => (if (idx j =? k)%nat then b j else 0) * c k)
+                           (fun j => c k * (if (idx j =? k)%nat then b j else 0))) by (intros; ring).
+      rewrite ip_sumn_scale. ring. }
+  rewrite ip_sumn_swap. apply ip_sumn_ext. intros j Hj.
+  rewrite (ip_sumn_ext n _ (fun k => (if (idx j =? k)%nat then 1 else 0) * (b j * c k))).
+  2:{ intros k _. destruct (idx j =? k)%nat; ring. }
+  rewrite (ip_sumn_eqb n (idx j) (fun k => b j * c k)) by (apply Hlt; lia). reflexivity.
 Qed.
 
-Lemma ip_col_inj nb degree s periodic j j' : (periodic = true -> (degree + 1 <= nb)%nat) ->
-  (j <= degree)%nat -> (j' <= degree)%nat ->
-  ip_col nb degree s periodic j = ip_col nb degree s periodic j' -> j = j'.
-Proof.
-  intros Hp Hj Hj' E. unfold ip_col in E. destruct periodic; [|lia].
-  apply (ip_mod_inj nb (s - degree) j j' degree); try assumption. specialize (Hp eq_refl). lia.
-Qed.
-
-(** [row_dot_is_eval] for the rows of the model: row . sol = sum_j b_j * sol[col j] *)
+(** for the rows of the model: row . sol = sum_j b_j * sol[col j] *)
 Lemma ip_row_dot nb degree s periodic b (sol : nat -> F) :
   (1 <= nb)%nat -> (degree <= s)%nat -> (periodic = false -> (s < nb)%nat) ->
-  (periodic = true -> (degree + 1 <= nb)%nat) ->
   isum nb (fun k => nth k (ip_row_of F K nb degree s periodic b) 0 * sol k)
   = sumn (S degree) (fun j => nth j b 0 * sol (ip_col nb degree s periodic j)).
 Proof.
-  intros Hnb Hd Hs Hp. unfold ip_sum.
-  rewrite (ip_sumn_ext nb _ (fun k => row F 0 (ip_col nb degree s periodic) (fun j => nth j b 0) degree k * sol k)).
+  intros Hnb Hd Hs. unfold ip_sum.
+  rewrite (ip_sumn_ext nb _ (fun k => ip_row_acc F K (ip_col nb degree s periodic) (fun j => nth j b 0) degree k * sol k)).
   2:{ intros k Hk. unfold ip_row_of. rewrite ip_vtab_get by exact Hk. reflexivity. }
-  rewrite <- !ip_sumn_colloc.
-  apply (row_dot_is_eval F 0 1 (spadd K) (spmul K) (spsub K) (spdiv K) (spopp K) (spinv K) Fth).
-  - intros j Hj. apply ip_col_lt; assumption.
-  - intros j j' Hj Hj'. apply ip_col_inj; assumption.
+  apply ip_row_acc_dot. intros j Hj. apply ip_col_lt; assumption.
 Qed.
 
 (** the coefficient array read by eval at s-p+j is the solution read at the (wrapped) column *)
@@ -329,12 +328,11 @@ Qed.
 
 Theorem ip_interp_many_exact knots degree periodic cubic xs us cs :
   ip_interp_many F K knots degree periodic cubic xs us = SpOk cs ->
-  (periodic = true -> (degree + 1 <= ip_nbasis F K knots degree periodic cubic)%nat) ->
   ip_spans_in_range knots degree periodic cubic xs ->
   forall r i, (r < length us)%nat -> (i < ip_nbasis F K knots degree periodic cubic)%nat ->
   ip_eval1d F K knots degree cubic (nth r cs []) (nth i xs 0) = SpOk (nth i (nth r us []) 0).
 Proof.
-  intros H Hinj Hrange r i Hr Hi.
+  intros H Hrange r i Hr Hi.
   destruct (ip_interp_many_spec _ _ _ _ _ _ _ H) as [Hok [Hxs _]].
   destruct (ip_interp_many_system _ _ _ _ _ _ _ H) as [_ [A [EA Hsys]]].
   set (nb := ip_nbasis F K knots degree periodic cubic) in *.
@@ -360,14 +358,13 @@ Qed.
 (** headline of C08 (1-D): the interpolant takes the data values at the interpolation points *)
 Theorem ip_interp1d_exact knots degree periodic cubic xs u c :
   ip_interp1d F K knots degree periodic cubic xs u = SpOk c ->
-  (periodic = true -> (degree + 1 <= ip_nbasis F K knots degree periodic cubic)%nat) ->
   ip_spans_in_range knots degree periodic cubic xs ->
   forall i, (i < ip_nbasis F K knots degree periodic cubic)%nat ->
   ip_eval1d F K knots degree cubic c (nth i xs 0) = SpOk (nth i u 0).
 Proof.
   unfold ip_interp1d. destruct (ip_interp_many F K knots degree periodic cubic xs [u]) as [cs| | | |] eqn:E; cbn [sp_bind]; try discriminate.
-  intros H Hinj Hrange i Hi. inversion H. subst c.
-  exact (ip_interp_many_exact _ _ _ _ _ _ _ E Hinj Hrange 0%nat i ltac:(cbn; lia) Hi).
+  intros H Hrange i Hi. inversion H. subst c.
+  exact (ip_interp_many_exact _ _ _ _ _ _ _ E Hrange 0%nat i ltac:(cbn; lia) Hi).
 Qed.
 
 (** periodic interpolants keep their wrapped coefficients consistent: c[n+j] = c[j], j < p;
@@ -474,11 +471,10 @@ Qed.
 (** sum over a row = sum of the basis values written into it *)
 Lemma ip_row_sum nb degree s periodic b :
   (1 <= nb)%nat -> (degree <= s)%nat -> (periodic = false -> (s < nb)%nat) ->
-  (periodic = true -> (degree + 1 <= nb)%nat) ->
   isum nb (fun k => nth k (ip_row_of F K nb degree s periodic b) 0) = sumn (S degree) (fun j => nth j b 0).
 Proof.
-  intros Hnb Hd Hs Hp.
-  pose proof (ip_row_dot nb degree s periodic b (fun _ => 1) Hnb Hd Hs Hp) as H.
+  intros Hnb Hd Hs.
+  pose proof (ip_row_dot nb degree s periodic b (fun _ => 1) Hnb Hd Hs) as H.
   unfold ip_sum in *. rewrite (ip_sumn_ext nb _ (fun k => nth k (ip_row_of F K nb degree s periodic b) 0 * 1)) by (intros; ring).
   rewrite H. apply ip_sumn_ext. intros; ring.
 Qed.
@@ -495,9 +491,9 @@ Qed.
 Theorem ip_rows_sum_one_cubic knots degree periodic xs A :
   let nb := ip_nbasis F K knots degree periodic true in
   ip_colloc F K nb knots degree periodic true xs = SpOk A -> length xs = nb -> degree = 3%nat ->
-  (periodic = true -> (degree + 1 <= nb)%nat) -> ip_rows_sum_one nb A.
+  ip_rows_sum_one nb A.
 Proof.
-  cbv zeta. intros EA Hxs Hd3 Hp i Hi.
+  cbv zeta. intros EA Hxs Hd3 i Hi.
   destruct (ip_mapM_spec _ 0 [] _ _ EA) as [HlA HA]. specialize (HA i ltac:(lia)).
   destruct (ip_colloc_row_spec _ _ _ _ _ _ _ HA) as [s [b [Hsb [Hds [Hsn [Hnb Erow]]]]]].
   unfold ip_mget. rewrite Erow. rewrite ip_row_sum by assumption.
@@ -520,9 +516,9 @@ Theorem ip_rows_sum_one_nu knots degree periodic xs A :
   sp_lt K (sp_kn F K knots (length knots - degree - 2)) (sp_kn F K knots (length knots - 1 - degree)) ->
   (forall i, (i < nb)%nat -> sp_le K (sp_kn F K knots degree) (nth i xs 0) /\
                              sp_le K (nth i xs 0) (sp_kn F K knots (length knots - 1 - degree))) ->
-  (periodic = true -> (degree + 1 <= nb)%nat) -> ip_rows_sum_one nb A.
+  ip_rows_sum_one nb A.
 Proof.
-  cbv zeta. intros EA Hxs Hsorted Hlen Hfirst Hlast Hdom Hp i Hi.
+  cbv zeta. intros EA Hxs Hsorted Hlen Hfirst Hlast Hdom i Hi.
   destruct (ip_mapM_spec _ 0 [] _ _ EA) as [HlA HA]. specialize (HA i ltac:(lia)).
   destruct (ip_colloc_row_spec _ _ _ _ _ _ _ HA) as [s [b [Hsb [Hds [Hsn [Hnb Erow]]]]]].
   unfold ip_mget. rewrite Erow. rewrite ip_row_sum by assumption.
@@ -657,19 +653,18 @@ Qed.
 (** [ip_interp1d_exact] with the span hypothesis discharged: a non-degenerate domain is enough *)
 Theorem ip_interp1d_exact_nu knots degree periodic xs u c :
   ip_interp1d F K knots degree periodic false xs u = SpOk c ->
-  (periodic = true -> (degree + 1 <= ip_nbasis F K knots degree periodic false)%nat) ->
   sp_lt K (sp_kn F K knots degree) (sp_kn F K knots (length knots - 1 - degree)) ->
   forall i, (i < ip_nbasis F K knots degree periodic false)%nat ->
   sp_nu_eval_1d_scalar F K (nth i xs 0) knots degree c 0 = SpOk (nth i u 0).
 Proof.
-  intros H Hinj Hdom i Hi.
+  intros H Hdom i Hi.
   assert (Hlen : (2 * degree + 1 < length knots)%nat).
   { unfold ip_interp1d in H.
     destruct (ip_interp_many F K knots degree periodic false xs [u]) as [cs| | | |] eqn:E; cbn [sp_bind] in H; try discriminate.
     destruct (ip_interp_many_spec _ _ _ _ _ _ _ E) as [Hok _]. unfold ip_space_ok in Hok.
     apply andb_prop in Hok. destruct Hok as [Hok _]. apply andb_prop in Hok. destruct Hok as [_ Hok].
     apply Nat.leb_le in Hok. lia. }
-  exact (ip_interp1d_exact knots degree periodic false xs u c H Hinj
+  exact (ip_interp1d_exact knots degree periodic false xs u c H
            (ip_span_in_range_nu knots degree periodic xs Hlen Hdom) i Hi).
 Qed.
 
